@@ -179,37 +179,88 @@ func checkC13(p *Prog, r *Report) {
 	}
 
 	// ---- RULES-SENT ----
-	r.Rule("C13/RULES-SENT", "in ClientRun (receiving side) every rule of opts.FilterRules() is written (length, text) in a loop that precedes the terminating WriteInt32(0), which dominates ReceiveFileList", 1)
+	r.Rule("C13/RULES-SENT", "in ClientRun (receiving side) every rule of opts.FilterRules() is written (length, text) in a loop followed by the terminating WriteInt32(0) — inline or through a helper that gets opts.FilterRules() — and that write sequence dominates ReceiveFileList", 1)
 	cr := anchorFunc(p, r, pkgMaincmd, "", "ClientRun")
 	rfl := anchorFunc(p, r, pkgReceiver, "Transfer", "ReceiveFileList")
 	if cr != nil && rfl != nil {
-		var rulesCall, term, recv, ws ssa.CallInstruction
+		var recv ssa.CallInstruction
 		allCalls(cr, func(c ssa.CallInstruction) {
-			switch {
-			case calleeName(c) == "(*"+pkgOpts+".Options).FilterRules":
-				rulesCall = c
-			case c.Common().StaticCallee() == rfl:
+			if c.Common().StaticCallee() == rfl {
 				recv = c
 			}
 		})
+		// writesRules: fn writes every element of `rules` then a 0 terminator on every nil-error path
+		writesRules := func(fn *ssa.Function, rules ssa.Value) bool {
+			var ws ssa.CallInstruction
+			var term ssa.CallInstruction
+			allCalls(fn, func(c ssa.CallInstruction) {
+				switch calleeName(c) {
+				case "(*" + pkgWire + ".Conn).WriteString":
+					if ld, ok := c.Common().Args[1].(*ssa.UnOp); ok && ld.Op == token.MUL {
+						if ia, ok := ld.X.(*ssa.IndexAddr); ok && ia.X == rules {
+							ws = c
+						}
+					}
+				case "(*" + pkgWire + ".Conn).WriteInt32":
+					if k, ok := constInt(c.Common().Args[1]); ok && k == 0 {
+						term = c
+					}
+				}
+			})
+			inLoop := false
+			if ws != nil {
+				for _, sc := range ws.Block().Succs {
+					if reachableFrom(sc)[ws.Block()] {
+						inLoop = true
+					}
+				}
+			}
+			if ws == nil || term == nil || !mayFollow(ws, term) || !inLoop {
+				return false
+			}
+			if fn == cr {
+				return recv != nil && InstrDominates(term, recv)
+			}
+			// helper: every return is the terminator's result or a non-nil error
+			for _, b := range fn.Blocks {
+				ret, ok := lastInstr(b).(*ssa.Return)
+				if !ok {
+					continue
+				}
+				rv := retResults(ret)[0]
+				if rv == term.Value() {
+					continue
+				}
+				if isNilConst(rv) && !InstrDominates(term, ret) {
+					return false
+				}
+			}
+			return true
+		}
+		ok := false
 		allCalls(cr, func(c ssa.CallInstruction) {
-			if rulesCall == nil {
+			if calleeName(c) != "(*"+pkgOpts+".Options).FilterRules" || recv == nil || !InstrDominates(c, recv) {
 				return
 			}
-			switch calleeName(c) {
-			case "(*" + pkgWire + ".Conn).WriteInt32":
-				if k, ok := constInt(c.Common().Args[1]); ok && k == 0 && InstrDominates(rulesCall, c) && recv != nil && InstrDominates(c, recv) {
-					term = c
+			if writesRules(cr, c.Value()) {
+				ok = true
+			}
+			// passed to a helper that dominates ReceiveFileList and whose error is checked
+			for _, ref := range *c.Value().Referrers() {
+				hc, isCall := ref.(*ssa.Call)
+				if !isCall || hc.Common().StaticCallee() == nil || !InstrDominates(hc, recv) {
+					continue
 				}
-			case "(*" + pkgWire + ".Conn).WriteString":
-				if ld, ok := c.Common().Args[1].(*ssa.UnOp); ok && ld.Op == token.MUL {
-					if ia, ok := ld.X.(*ssa.IndexAddr); ok && ia.X == rulesCall.Value() {
-						ws = c
+				h := hc.Common().StaticCallee()
+				for i, a := range hc.Common().Args {
+					if a == c.Value() && i < len(h.Params) && writesRules(h, h.Params[i]) {
+						if prop, _ := errPropagated(hc); prop {
+							ok = true
+						}
 					}
 				}
 			}
 		})
-		ok := rulesCall != nil && term != nil && ws != nil && mayFollow(ws, term) && reachableFrom(ws.Block().Succs[0])[ws.Block()]
 		r.Cond(ok, "C13/RULES-SENT", "ClientRun sends filter rules before the list terminator", p.Pos(cr.Pos()), "rules loop / terminator / ReceiveFileList ordering not established")
 	}
 	_ = nP
